@@ -97,7 +97,22 @@ func vfsC18SameSizeAtoms(r *vfRand, repos []*vfsRepo, k int, branchNames []strin
 	return out
 }
 
-func vfsC18ShardTerm(sh *vfsShard) string {
+// vfsC18FlakyList: a shard whose FIRST List call fails — the one mkRankedShard makes when the shard is loaded, so that
+// rankedShard.repos stays nil ("we don't know what is in it and must search it without simplifying the query").
+type vfsC18FlakyList struct {
+	zoekt.Searcher
+	failed bool
+}
+
+func (f *vfsC18FlakyList) List(ctx context.Context, q query.Q, opts *zoekt.ListOptions) (*zoekt.RepoList, error) {
+	if !f.failed {
+		f.failed = true
+		return nil, fmt.Errorf("vfsC18FlakyList: first List fails")
+	}
+	return f.Searcher.List(ctx, q, opts)
+}
+
+func vfsC18ShardTerm(sh *vfsShard, known bool) string {
 	var ps []string
 	for _, p := range sh.parts {
 		var bs []uint64
@@ -115,7 +130,44 @@ func vfsC18ShardTerm(sh *vfsShard) string {
 		}
 		ps = append(ps, cTuple(rt, cList(ds)))
 	}
-	return cTuple("true", cList(ps))
+	return cTuple(cBool(known), cList(ps))
+}
+
+// vfsC18DisjointBranchesRepos: a BranchesRepos filter with 2-3 entries whose repository sets are DISJOINT (every repository in at
+// most one entry): a shard may hold only repositories of a LATER entry, which must still select it.
+func vfsC18DisjointBranchesRepos(r *vfRand, repos []*vfsRepo) vfsQ {
+	n := 2 + r.Intn(2)
+	names := []string{"main", "dev", "HEAD", "main-old", "main", "dev"}
+	var list []query.BranchRepos
+	var ls [][]uint32
+	for k := 0; k < n; k++ {
+		list = append(list, query.BranchRepos{Branch: names[r.Intn(len(names))], Repos: roaring.New()})
+		ls = append(ls, nil)
+	}
+	for _, rp := range repos {
+		if r.Chance(85) {
+			k := r.Intn(n)
+			list[k].Repos.Add(rp.id)
+			ls[k] = append(ls[k], rp.id)
+		}
+	}
+	var descs, terms []string
+	for k := range list {
+		var l64 []uint64
+		for _, x := range ls[k] {
+			l64 = append(l64, uint64(x))
+		}
+		descs = append(descs, fmt.Sprintf("%q:%v", list[k].Branch, ls[k]))
+		terms = append(terms, cTuple(cN(vfsBranchID[list[k].Branch]), cNList(l64)))
+	}
+	return vfsQ{&query.BranchesRepos{List: list}, func(rp *vfsRepo, dc *vfsDoc) bool {
+		for _, br := range list {
+			if br.Repos.Contains(rp.id) && vfsHasBranch(dc, br.Branch) {
+				return true
+			}
+		}
+		return false
+	}, "branchesrepos:" + strings.Join(descs, ","), "branchesrepos2", "(CBranchesRepos " + cList(terms) + ")"}
 }
 
 func vfsSortedU64(m map[uint64]bool) []uint64 {
@@ -147,6 +199,7 @@ func TestVerifC18(t *testing.T) {
 	var w *vfsWorld
 	var srch zoekt.Streamer
 	dir, searcherKind := "", ""
+	unknown := map[string]bool{} // shards of the current world loaded with an unknown repository list
 	nw := 0
 	// branch names asked for: incl. names that contain one another (main / main-old / ma) and the empty name
 	branchNames := []string{"HEAD", "HEAD", "main", "main", "dev", "", "main-old", "ma"}
@@ -157,6 +210,7 @@ func TestVerifC18(t *testing.T) {
 				srch.Close()
 			}
 			w = vfsGenWorld(t, r, vfsGenOpts{branchy: true, split: true}, fmt.Sprint("c18w", nw))
+			unknown = map[string]bool{}
 			if dir != "" {
 				os.RemoveAll(dir)
 				dir = ""
@@ -166,7 +220,20 @@ func TestVerifC18(t *testing.T) {
 				srch, dir = w.newDirectorySearcher(t, fmt.Sprint("c18w", nw))
 				searcherKind = "directory"
 			} else {
-				srch, _ = w.newSearcher()
+				// as vfsWorld.newSearcher, but some shards fail their first List: unknown repository list (repos == nil)
+				ss := newShardedSearcher(4)
+				m := map[string]zoekt.Searcher{}
+				for _, sh := range w.shards {
+					if r.Chance(10) {
+						m[sh.key] = &vfsC18FlakyList{Searcher: sh.s}
+						unknown[sh.key] = true
+					} else {
+						m[sh.key] = sh.s
+					}
+				}
+				ss.replace(m)
+				ss.markReady()
+				srch = &typeRepoSearcher{Streamer: ss}
 				searcherKind = "in-memory"
 			}
 		}
@@ -199,6 +266,10 @@ func TestVerifC18(t *testing.T) {
 			nset = r.Intn(2)
 		}
 		for k := 0; k < nset; k++ {
+			if r.Chance(12) {
+				children = append(children, vfsC18DisjointBranchesRepos(r, w.repos))
+				continue
+			}
 			children = append(children, vfsSetAtom(r, w.repos, branchNames))
 		}
 		if multiTR {
@@ -306,7 +377,7 @@ func TestVerifC18(t *testing.T) {
 				}
 				ps = append(ps, map[string]any{"name": p.repo.name, "id": p.repo.id, "branches": p.repo.branches, "meta.k": p.repo.meta["k"], "docs": ds})
 			}
-			sdesc = append(sdesc, map[string]any{"shard": sh.key, "repos": ps})
+			sdesc = append(sdesc, map[string]any{"shard": sh.key, "repos": ps, "repository_list_unknown": unknown[sh.key]})
 		}
 		replay := map[string]any{"seed": vfSeed(), "case": i, "searcher": searcherKind, "query": descs, "query_go": q.String(), "shards": sdesc}
 
@@ -464,7 +535,7 @@ func TestVerifC18(t *testing.T) {
 		// ---- correspondence record
 		var shs []string
 		for _, sh := range w.shards {
-			shs = append(shs, vfsC18ShardTerm(sh))
+			shs = append(shs, vfsC18ShardTerm(sh, !unknown[sh.key]))
 		}
 		var lr []string
 		for _, x := range lrows {
@@ -489,6 +560,9 @@ func TestVerifC18(t *testing.T) {
 		}
 		if multiTR {
 			class = append(class, "multi-typerepo")
+		}
+		if len(unknown) > 0 {
+			class = append(class, "unknown-repo-list-shard")
 		}
 		nontriv := (nset > 0 || hasTypeRepo) && len(w.shards) > 1
 		vfCase(coq, vfKey(nw, descs), nontriv, class, map[string]any{"query": descs, "shards": len(w.shards), "files": len(gotL), "listed": len(rl.Repos)})
